@@ -108,10 +108,17 @@ int main(int argc, char **argv) {
 
 
 def universe(repo):
-    cin = open(os.path.join(repo, 'config.h.in')).read()
+    """every feature switch of the three registries: from the registry sources themselves (every SNOOPY_CONF_<KIND>_ENABLED_<name>
+    they test) plus configure's template when present (config.h.in is a git-ignored autotools product)"""
     u = {}
-    for kind, (_, _, _, _, sw) in REG.items():
-        u[kind] = sorted(set(re.findall(r'#undef ' + sw + r'(\w+)', cin)))
+    cin = ''
+    try:
+        cin = open(os.path.join(repo, 'config.h.in')).read()
+    except FileNotFoundError:
+        pass
+    for kind, (path, _, _, _, sw) in REG.items():
+        src = open(os.path.join(repo, path)).read()
+        u[kind] = sorted(set(re.findall(r'#undef ' + sw + r'(\w+)', cin)) | set(re.findall(sw + r'(\w+)', src)))
     return u
 
 
